@@ -20,7 +20,7 @@ type hostCfg struct {
 	EncVsn   int    `json:"enc_version"` // -1 none, 0, 1
 	Verify   bool   `json:"verify_incoming"`
 	Compress bool   `json:"compress"`
-	Skip     bool   `json:"skip_inbound_label_check"` // an outer layer strips the header: traffic arrives without one
+	Skip     bool   `json:"skip_inbound_label_check"`   // an outer layer strips the header: traffic arrives without one
 	Late     bool   `json:"keys_installed_at_run_time"` // the node is created with an empty keyring; the keys are installed afterwards
 }
 
